@@ -76,8 +76,12 @@ def make(sid, nam, cli_name, switches, pad, end_operand, with_org=True):
         env = {"fault": fault, "end_operand": end_operand, "entry_is_origin": end_operand in (None, "", "START"),
                "nam": nam, "cli_name": cli_name, "switches": switches, "with_org": with_org}
         return ctx.known(PID, {"part": "save"}, env), info
-    return Ob("C11:" + sid, body, timeout=300, tags={"part": "save"},
+    ob = Ob("C11:" + sid, body, timeout=(1200 if pad > 10000 else 300), tags={"part": "save"},
               text="NAM=%r --name=%r %s pad=%d END %r org=%s" % (nam, cli_name, "+".join(switches), pad, end_operand, with_org))
+    if pad > 10000:
+        ob.native_only = True       # a 52 KB image through the disk writer: concrete replay (too slow under tracing)
+        ob.r4 = False
+    return ob
 
 
 def check_cas(buf, img, origin, entry, name):
@@ -139,6 +143,7 @@ def obligations(tier, seed):
             obs.append(make("n%d:%s" % (i, "+".join(sw)), nam, cn, sw, 0, None))
     for pad in ([250, 251, 2295] if not full else [0, 1, 249, 250, 251, 2294, 2295, 2296, 4600]):
         obs.append(make("pad%d" % pad, "PADDED", None, ["to_bin", "to_cas", "to_dsk"], pad, None))
+    obs.append(make("pad52000", "BIGONE", None, ["to_dsk", "to_bin"], 52000, None))
     for endop in ["", "START", "ENTRY", "LAST"]:
         obs.append(make("end:%s" % (endop or "none"), "ENDER", None, ["to_cas", "to_dsk"], 3, endop))
     obs.append(make("noorg", "NOORG", None, ["to_bin", "to_cas", "to_dsk"], 0, None, with_org=False))
